@@ -60,12 +60,17 @@ def run(ctx):
             updater = ['record', 'record', 'channel', 'noop'][i % 4] if i % 9 else 'record'
             fault = rng.random() < 0.3
             plan = []
+            forced = None
+            if i < 8:     # corpus: a failure that is only RETURNED (special file), several workers: copy() must return Err
+                driver = ['parfile', 'parblock'][i % 2]; workers = [4, 8][(i // 2) % 2]; updater = ['record', 'noop'][(i // 4) % 2]
+                fault = True; forced = f'fail mknodat fifo 1 {E["EPERM"]}'
             if rng.random() < 0.5:
                 plan.append(f'sched {ctx.seed * 13 + i} {rng.choice(["pct", "delay"])} {rng.randint(1, 3)}')
             if fault:
                 victim = f'f{rng.randrange(nfiles)}'
-                plan.append(rng.choice([f'fail copy_file_range D/{victim} 1 {E["EIO"]}', f'fail openat =S/{victim} 1 {E["EACCES"]}', f'fail ftruncate {victim} 1 {E["ENOSPC"]}',
-                                        f'fail openat S/sub/{victim} 1 {E["EMFILE"]}', f'fail mkdir sub 1 {E["EACCES"]}']))
+                plan.append(forced or rng.choice([f'fail copy_file_range D/{victim} 1 {E["EIO"]}', f'fail openat =S/{victim} 1 {E["EACCES"]}', f'fail ftruncate {victim} 1 {E["ENOSPC"]}',
+                                        f'fail openat S/sub/{victim} 1 {E["EMFILE"]}', f'fail mkdir sub 1 {E["EACCES"]}',
+                                        f'fail mknodat fifo 1 {E["EPERM"]}', f'fail mknodat fifo 1 {E["EPERM"]}', f'fail symlink link 1 {E["EIO"]}']))
             argv = ['--driver', driver, '--workers', str(workers), '--block-size', str(bsize), '--updater', updater]
             if updater == 'record' and rng.random() < 0.5:
                 argv += ['--stall-us', str(rng.choice([100, 500]))]
@@ -115,6 +120,8 @@ def run(ctx):
                         if os.path.isfile(s) and not os.path.islink(s):
                             if not os.path.isfile(d) or os.path.getsize(d) != os.path.getsize(s) or open(d, 'rb').read() != open(s, 'rb').read():
                                 incomplete = True
+                        elif not os.path.lexists(d):
+                            incomplete = True          # a link or special node that was not recreated
                 if incomplete and result == 'ok' and kv['error'] == 'false':
                     bad = 'destination incomplete but neither an error update was delivered nor did copy() return an error'
             if bad:
